@@ -406,7 +406,7 @@ def trees(tier, seed=0):
         for ax in range(-rank, rank):
             base = [2] * rank
             shapes = []
-            for sz in ((1, 2) if tier == "quick" or rank == 3 else (1, 2, 3)):
+            for sz in ((1, 2) if rank == 3 else (1, 2, 3)):  # >= 3 parts: split offsets must be cumulative (2 parts cannot tell sizes from offsets)
                 s = list(base)
                 s[ax] = sz
                 shapes.append(tuple(s))
